@@ -111,6 +111,20 @@ CONTEXT_FUNC = """
     z = twice(kk)*x + z{-1}*0.5;
 """
 
+AUTODECL = """
+!transition-variables
+    x, z
+!transition-shocks
+    ex, ez
+!transition-equations
+    x = rx*x{-1} + (1-rx)*mu + ex;
+    z = rz*z{-1} + kk*x{-1} + ez;
+!measurement-variables
+    ox
+!measurement-equations
+    ox = x + z;
+"""
+
 SEQ_A = """
 !parameters
     c0, ss
@@ -150,6 +164,11 @@ TEMPLATES = {
     "ctxfun": {"cls": "sim", "source": CONTEXT_FUNC, "flags": {"linear": True}, "context": True,
                "params": {"rx": (0.1, 0.9), "mu": (-1.0, 2.0), "kk": (0.1, 0.4)},
                "init": {}, "shocks": ["ex"], "shock_size": 1.0, "measurement": False},
+    # parameters are NOT declared: irispie autodeclares them in set order, so their ids depend on PYTHONHASHSEED -
+    # the serialised model must carry its own order into an interpreter with another hash seed
+    "autodecl": {"cls": "sim", "source": AUTODECL, "flags": {"linear": True}, "autodeclare_as": "parameters",
+                 "params": {"rx": (0.1, 0.9), "rz": (0.1, 0.9), "kk": (-0.5, 0.5), "mu": (-1.0, 2.0)},
+                 "init": {}, "shocks": ["ex", "ez"], "shock_size": 1.0, "measurement": True},
     "seq_a": {"cls": "seq", "source": SEQ_A, "params": {"c0": (0.2, 0.9), "ss": (0.1, 2.0)}},
     "seq_b": {"cls": "seq", "source": SEQ_B, "params": {"c0": (0.2, 0.9), "c1": (0.1, 0.8), "ss": (0.5, 2.0)}},
     "var1": {"cls": "var", "names": ["x", "z"], "order": 1, "intercept": True},
@@ -258,6 +277,8 @@ class SimAdapter:
         kw = dict(t["flags"])
         if t.get("context"):
             kw["context"] = {"twice": twice}
+        if t.get("autodeclare_as"):
+            kw["autodeclare_as"] = t["autodeclare_as"]
         return ir.Simultaneous.from_string(t["source"], **kw)
 
     # -- mutators ---------------------------------------------------------------------------------
@@ -275,6 +296,11 @@ class SimAdapter:
             m.assign(**vals)
         elif k == "alter":
             m.alter_num_variants(op["n"])
+        elif k == "assign_variant":
+            # model[k] is a view sharing variant k with its parent: assigning through it changes that variant only
+            how = op.get("how", "getitem")
+            view = m[op["v"] % m.num_variants] if how == "getitem" else m.get_variant(op["v"] % m.num_variants)
+            view.assign(**op["values"])
         elif k == "steady":
             quiet(lambda: m.solve_steady())
         elif k == "solve":
